@@ -27,7 +27,7 @@ import os
 import threading
 
 from .canon import canon_text
-from .model import USER_EXC, Crash, UserError, version_tag
+from .model import USER_EXC, Crash, CrashBase, UserError, version_tag
 
 QUERY_KINDS = ['exists', 'is_file', 'is_dir', 'list_dir', 'walk', 'walk_bu', 'get_size', 'read_text',
                'read_binary', 'declare_read']
@@ -82,7 +82,7 @@ class Ctx:
         k = self.boundary
         self.boundary += 1
         if self.crash_at is not None and k == self.crash_at:
-            self.crash_obj = Crash('crash@%d' % k)
+            self.crash_obj = (CrashBase if self.extra.get('crash_base') else Crash)('crash@%d' % k)
             raise self.crash_obj
 
     def record_trace(self, inv, kind, path, answer):
@@ -92,7 +92,7 @@ class Ctx:
 
 
 def exc_class(e):
-    if isinstance(e, Crash):
+    if isinstance(e, (Crash, CrashBase)):
         return 'Crash'
     if isinstance(e, UserError):
         return 'UserError'
@@ -410,6 +410,7 @@ def bind_program(prog, ap):
             out.append(s)
         return out
     return {'root': conv(prog['root']),
+            'alt_roots': [conv(r) for r in prog.get('alt_roots', [])],
             'funcs': {k: {'kind': v['kind'], 'body': conv(v['body'])} for k, v in prog['funcs'].items()},
             'universe': list(prog.get('universe', []))}
 
